@@ -57,3 +57,52 @@ def dag_full(p: Int, w_min: Real, w_max: Real):
     ensures(implies(return_ordering, is_permutation(result[1], p)
                     and all(implies(result[0][result[1][a], result[1][b]] != 0, a < b) for a in range(p) for b in range(p))))
     fresh(result)
+
+
+@spec
+def max_size_of(size):
+    return size[1] if isinstance(size, tuple) else size
+
+
+@spec
+def min_size_of(size):
+    return size[0] if isinstance(size, tuple) else size
+
+
+@spec
+def good_target_list(L, p, lo, hi):
+    """distinct variables from 0..p-1 whose number lies in [lo, hi]"""
+    return lo <= len(L) and len(L) <= hi and distinct(L) and all(0 <= L[t] and L[t] < p for t in range(len(L)))
+
+
+@contract("sempler.generators.intervention_targets", cases={'size': ['int', 'pair', 'triple'], 'replace': [True, False], 'random_state': ['int']})
+def intervention_targets(p: Int, K: Int) -> ListOf(ListOf(Int)):
+    requires(p >= 1, K >= 0, min_size_of(size) >= 0, min_size_of(size) <= max_size_of(size))
+    raises(ValueError, when=(isinstance(size, tuple) and len(size) != 2) or max_size_of(size) > p or (not replace and max_size_of(size) * K > p))
+    ensures(len(result) == K,
+            all(good_target_list(result[m], p, min_size_of(size), max_size_of(size)) for m in range(K)))
+    # without replacement no variable occurs in two interventions
+    ensures(implies(not replace, all(implies(m != m2, result[m][a] != result[m2][b])
+                                     for m in range(K) for m2 in range(K) for a in range(len(result[m])) for b in range(len(result[m2])))))
+    fresh(result)
+
+
+@invariant("sempler.generators.intervention_targets", loop=1)
+def _it_replace(interventions, sizes, p, size):
+    declare(interventions=ListOf(ListOf(Int)))
+    holds(len(interventions) == _k1,
+          all(good_target_list(interventions[m], p, min_size_of(size), max_size_of(size)) for m in range(_k1)))
+
+
+@invariant("sempler.generators.intervention_targets", loop=2)
+def _it_noreplace(interventions, remaining_targets, sizes, p, K, size):
+    declare(interventions=ListOf(ListOf(Int)))
+    holds(len(interventions) == _k2,
+          all(good_target_list(interventions[m], p, min_size_of(size), max_size_of(size)) for m in range(_k2)),
+          all(implies(x in remaining_targets, 0 <= x and x < p) for x in range(p)),
+          remaining_targets <= set(range(p)),
+          # enough variables are left for the interventions still to be drawn
+          card(remaining_targets) >= max_size_of(size) * (K - _k2),
+          all(interventions[m][a] not in remaining_targets for m in range(_k2) for a in range(len(interventions[m]))),
+          all(implies(m != m2, interventions[m][a] != interventions[m2][b])
+              for m in range(_k2) for m2 in range(_k2) for a in range(len(interventions[m])) for b in range(len(interventions[m2]))))
